@@ -416,7 +416,7 @@ func (w *World) unary(ctx context.Context, full string, md protoreflect.MethodDe
 	}
 	var p []byte
 	if len(spec.Resps) > 0 {
-		p = payloadFor(rs.spec.ID, 0, 'S', spec.Resps[0])
+		p = payloadFor(rs.spec.payloadID(), 0, 'S', spec.Resps[0])
 	}
 	l.Sent = 1 // whether it reaches the client is judged from the response bytes
 	l.setSent(1)
@@ -460,7 +460,7 @@ func (w *World) stream(full string, md protoreflect.MethodDescriptor, stream grp
 		if sendFailed || i >= len(spec.Resps) {
 			return
 		}
-		m := rs.method.mkResp(payloadFor(rs.spec.ID, i, 'S', spec.Resps[i]))
+		m := rs.method.mkResp(payloadFor(rs.spec.payloadID(), i, 'S', spec.Resps[i]))
 		l.setIn(false, true)
 		start := w.sim.StepNo()
 		err := stream.SendMsg(m)
@@ -611,7 +611,7 @@ func (w *World) bodyWriter(rs *reqState, l *HLog, spec *HandlerSpec, stream grpc
 		if !yield("h.bodywrite") {
 			return false
 		}
-		p := payloadFor(rs.spec.ID, i, 'S', spec.Resps[i])
+		p := payloadFor(rs.spec.payloadID(), i, 'S', spec.Resps[i])
 		if _, err := wr.Write(p); err != nil {
 			l.SendErr, l.SendErrAt = err, i
 			return false
